@@ -17,13 +17,23 @@ def cls_of(fam):
 # text scanner, and a constructor call followed by hashing and comparing (what any consumer that
 # de-duplicates does before it reads an object).
 ENTRY = "direct"
-ENTRIES = ("rh", "text", "hashed", "strsub")
+ENTRIES = ("rh", "text", "hashed", "strsub", "copied", "pickled")
 
 
 class Text(str):
-    """A str subclass (what an ORM column, a lazy translation or a markup-safe string hands over):
-    every str is a legal argument, and a subclass instance is a str."""
+    """A str subclass (what an ORM column, a lazy translation, a markup-safe string or a member of
+    a `class Known(str, Enum)` hands over): every str is a legal argument, and a subclass instance
+    is a str - its characters are the vector, whatever str() or repr() of it print."""
     __slots__ = ("origin",)
+
+    def __str__(self):
+        return "Text.%s" % getattr(self, "origin", "?")
+
+    def __repr__(self):
+        return "<Text from %s>" % getattr(self, "origin", "?")
+
+    def __format__(self, spec):
+        return format(str(self), spec)
 
 
 
@@ -40,6 +50,10 @@ def construct(fam, vec):
         return cls(vec)
     if e == "rh":
         score = cls(vec).rh_vector().split("/")[0]
+        if zlib.crc32(vec.encode("utf-8")) & 2:
+            t = Text(score + "/" + vec)          # Red Hat notation handed over as a str subclass
+            t.origin = "somewhere"
+            return cls.from_rh_vector(t)
         if zlib.crc32(vec.encode("utf-8")) & 1:
             # the same number written with more digits than a float holds; a reading that refuses
             # such a text is admitted (C12), then the plain text is used
@@ -50,7 +64,12 @@ def construct(fam, vec):
         return cls.from_rh_vector(score + "/" + vec)
     if e == "text":
         from cvss.parser import parse_cvss_from_text
-        got = parse_cvss_from_text(vec)
+        if zlib.crc32(vec.encode("utf-8")) & 2:
+            t = Text(vec)
+            t.origin = "somewhere"
+            got = parse_cvss_from_text(t)
+        else:
+            got = parse_cvss_from_text(vec)
         if len(got) != 1 or type(got[0]) is not cls:
             raise EntryError("parse_cvss_from_text(%r) returns %r instead of the one %s object" % (
                 vec, got, cls.__name__))
@@ -59,6 +78,12 @@ def construct(fam, vec):
         t = Text(vec)
         t.origin = "somewhere"
         return cls(t)
+    if e == "copied":
+        import copy
+        return copy.deepcopy(copy.copy(cls(vec)))
+    if e == "pickled":
+        import pickle
+        return pickle.loads(pickle.dumps(cls(vec), 2))
     if e == "hashed":
         o = cls(vec)
         seen = set([o])
@@ -72,7 +97,9 @@ def via():
     return "" if ENTRY == "direct" else "  [object obtained through %s]" % {
         "rh": "from_rh_vector(<its score>/<vector>)", "text": "parse_cvss_from_text(<vector>)",
         "hashed": "the constructor, then hashed and compared",
-        "strsub": "the constructor called with an instance of a str subclass"}[ENTRY]
+        "strsub": "the constructor called with an instance of a str subclass (whose str() is not its text)",
+        "copied": "the constructor, then copy.copy and copy.deepcopy",
+        "pickled": "the constructor, then a pickle round trip"}[ENTRY]
 
 
 def observation(fam, obj):
